@@ -27,7 +27,7 @@ fn chain(sel: u8) -> ([u64; 3], usize) {
     }
 }
 
-fn hdr_tree_body(sel: u8, all_known: bool) {
+fn hdr_tree_body(sel: u8, all_known: bool, hier_tolerated: bool) {
     let mut win: [u8; WIN] = kani::any();
     // 1-byte id, 1- or 2-byte size field: keeps the header arithmetic small; the general
     // header shapes are decided on `Flat` (hdr_flat_*)
@@ -35,8 +35,11 @@ fn hdr_tree_body(sel: u8, all_known: bool) {
     kani::assume(win[CUR + 1] >= 0x40);
     let base: usize = kani::any();
     kani::assume(base >= 64 && base < (1usize << 40));
-    let mask: u8 = kani::any();
-    kani::assume(mask < 8);
+    let mask_any: u8 = kani::any();
+    kani::assume(mask_any < 8);
+    // hier_tolerated: hierarchy problems are tolerated (the validator, whose work vectors make deep stacks
+    // intractable, is not called), so containment / limit / id checks can be decided on deep stacks
+    let mask = if hier_tolerated { mask_any | MASK_HIER } else { mask_any };
     let limit: Option<usize> = kani::any();
     let (ids, n) = chain(sel);
     let pos = base + CUR;
@@ -100,18 +103,18 @@ fn hdr_tree_body(sel: u8, all_known: bool) {
         };
         let numeric = matches!(ty, Some(TagDataType::UnsignedInt) | Some(TagDataType::Integer) | Some(TagDataType::Float));
         let numeric_bad = numeric && !matches!(size, RefSize::Known(s) if s <= 8);
-        kani::cover!(f_hier && !f_id && !f_over && !f_limit, "pure hierarchy fault reached");
+        kani::cover!(hier_tolerated || (f_hier && !f_id && !f_over && !f_limit), "pure hierarchy fault reached");
         kani::cover!(n == 0 || (f_over && !f_hier && !f_id && !f_limit), "pure oversize fault reached");
-        kani::cover!(all_known || n == 0 || (keep < n && path_ok), "element accepted after closing unknown-size masters reached");
+        kani::cover!(all_known || hier_tolerated || n == 0 || (keep < n && path_ok), "element accepted after closing unknown-size masters reached");
         kani::cover!(!f_id && !f_hier && !f_over && !f_limit && !numeric_bad && ty.is_some(), "accepted element reached");
         match &r {
             Ok((rid, rty, rsize, rhl)) => {
-                assert!(*rid == id && *rhl == hl && *rty == ty, "C03a: accepted header has the id, type and length found at the offset");
-                assert!(match size { RefSize::Known(s) => *rsize == EBMLSize::Known(s as usize), RefSize::Unknown => *rsize == EBMLSize::Unknown }, "C03a: accepted header carries the declared size");
-                assert!(!f_id, "C13: unknown id accepted although unknown ids are not tolerated (raw tag in strict mode)");
-                assert!(!f_hier, "C11b: element accepted although the chain of open masters (after closing unknown-size ones) does not match its declared path");
-                assert!(!f_over, "C06b: element accepted although it overruns a known-size ancestor");
-                assert!(!f_limit, "C17a: declared size above the limit accepted");
+                assert!(*rid == id && *rhl == hl && *rty == ty, "C03/C06a: accepted header has the id, type and length found at the offset");
+                assert!(match size { RefSize::Known(s) => *rsize == EBMLSize::Known(s as usize), RefSize::Unknown => *rsize == EBMLSize::Unknown }, "C03/C06a: accepted header carries the declared size");
+                assert!(!f_id, "C13/C06/C11: unknown id accepted although unknown ids are not tolerated (raw tag in strict mode)");
+                assert!(!f_hier, "C11/C06b: element accepted although the chain of open masters (after closing unknown-size ones) does not match its declared path");
+                assert!(!f_over, "C06/C13b: element accepted although it overruns a known-size ancestor");
+                assert!(!f_limit, "C13/C17a: declared size above the limit accepted (the limit stays in force under every tolerance setting)");
             }
             Err(e) => {
                 let k = kind_of(e);
@@ -122,11 +125,11 @@ fn hdr_tree_body(sel: u8, all_known: bool) {
                 let ok_limit = f_limit && matches!(k, ErrKind::InvalidTagSize { tag_id, position, size: s } if tag_id == id && position == pos && RefSize::Known(s as u64) == size);
                 let ok_num = numeric_bad && matches!(k, ErrKind::InvalidTagData { tag_id, position } if tag_id == id && position == pos);
                 assert!(ok_id || ok_hier || ok_over || ok_limit || ok_num,
-                    "C13: an element is rejected only for a fault it has (unknown id / misplaced / overrunning an ancestor / above the limit), with that fault's own kind, the offending id and offset, and never for a tolerated class");
+                    "C13/C06/C11: an element is rejected only for a fault it has (unknown id / misplaced / overrunning an ancestor / above the limit), with that fault's own kind, the offending id and offset, and never for a tolerated class");
             }
         }
         // the stack is only read by a header check
-        assert!(it.verif_stack().len() == n, "C06b: checking a header does not open or close masters");
+        assert!(it.verif_stack().len() == n, "C06/C13b: checking a header does not open or close masters");
     }
     core::mem::forget(r);
     core::mem::forget(it);
@@ -137,12 +140,15 @@ macro_rules! tree_h {
         tree_h!($name, $sel, false);
     };
     ($name:ident, $sel:literal, $known:literal) => {
+        tree_h!($name, $sel, $known, false);
+    };
+    ($name:ident, $sel:literal, $known:literal, $hier:literal) => {
         #[kani::proof]
         #[kani::unwind(10)]
         #[kani::stub(<core::io::CustomOwner as core::ops::Drop>::drop, stubs::noop_custom_owner_drop)]
         #[kani::stub(std::hash::RandomState::new, stubs::fixed_random_state)]
         fn $name() {
-            hdr_tree_body($sel, $known)
+            hdr_tree_body($sel, $known, $hier)
         }
     };
 }
@@ -156,6 +162,8 @@ tree_h!(hdr_tree_known_root, 1, true);
 tree_h!(hdr_tree_known_root_a, 2, true);
 tree_h!(hdr_tree_known_root_a_b, 3, true);
 tree_h!(hdr_tree_known_root_a2, 4, true);
+tree_h!(hdr_tree_over_root_a, 2, false, true);
+tree_h!(hdr_tree_over_root_a_b, 3, false, true);
 
 /// Mid-document start: the first non-global element fixes the position; its declared
 /// ancestors become open masters that will receive an End (never a Start). The id is
